@@ -592,7 +592,7 @@ fn main() {
             }
             rep.exhaustive(format!("capacities 1..=4 x every schedule in {{A,B}}^{} whose lead stays within the capacity, by_ref and by_rc; every schedule of length 10 re-split at every point (second by_ref, and by_rc after by_ref)", len));
             // random long schedules, capacities to 64
-            let n_rand = cli.t(300u64, 200_000u64);
+            let n_rand = cli.t(300u64, 1_000_000u64);
             let reps = vmon::par_for(cli.threads, n_rand, 4, |_| Report::new("C12", "w"), |rep, i| {
                 let mut rng = Rng::derive(cli.seed, &[12, i]);
                 let cap = 1 + rng.usize_below(64);
